@@ -703,6 +703,24 @@ func c03Run(prop, tier string, c Case, w *Worker) (res Result) {
 				return false
 			}
 			res.count("reads_fs", 1)
+			if L := len(it.content); L > 2 {
+				// one positioned read of most of the file (io.ReaderAt: a range that lies inside the file comes back whole, err nil)
+				off, end := L/7, L-L/9
+				h, err := rg.FS.Open(it.path)
+				if err != nil {
+					fail("fs-read", "%s: Open(%s): %v", phase, it.path, err)
+					return false
+				}
+				stepBegin()
+				buf := make([]byte, end-off)
+				n, rerr := h.ReadAt(buf, int64(off))
+				_ = h.Close()
+				if n != len(buf) || (rerr != nil && !(rerr == io.EOF && end == L)) || !bytes.Equal(buf, it.content[off:end]) {
+					fail("fs-readat", "%s: %s (%d bytes, %s): ReadAt(len %d, off %d) returned n=%d err=%v, bytes equal=%v", phase, it.path, L, it.how, len(buf), off, n, rerr, bytes.Equal(buf[:n], it.content[off:off+n]))
+					return false
+				}
+				res.count("reads_fs_positioned", 1)
+			}
 			rb, err := restoreBytes(rg, it.path)
 			if err != nil {
 				fail("restore", "%s: Operations.Restore(%s) (%d bytes, %s): %v", phase, it.path, len(it.content), it.how, err)
